@@ -15,16 +15,29 @@
    packed meta blob twice if the scan's second enumeration page saw the blob a start-up compaction had just
    uploaded (its ref must sort after every older one and the upload must beat the scan) - the model would then
    expect the next compaction one receive later than the code starts it.  Not observed in >10^3 start-up scans.
+   Long histories (family "long": past FullMetaBlobSize = 10000 lines in one packed meta blob) come with macro
+   lines: "recvn" = a run of k complete, undisturbed receive cycles (per cycle the index miss, the ciphertext's
+   and the one-entry meta blob's ReceiveBlob, index.Set and the reply - all their data is in the line) is taken
+   as ONE RecvBatch step of Encrypt.tla, which is k x (RecvStart, RecvBlob, RecvMeta, RecvIndex, RecvAck);
+   "fetchn" = a run of fetches, each judged by FetchReply.  Everything else (the lower-layer calls of every
+   compaction, a cycle a compaction's call fell into, projections, restarts) stays one line = one step.
+   The heap's pop order among meta blobs of EQUAL line count is not observable: the trace spec takes them by id
+   (Orders <- TOrders); this matters only if a group boundary falls inside a run of equally long meta blobs.
    One linear pass over independent segments (reset .. reset) with the `dead` give-up chain and <<"HW", line>>
    marks of Trace_BlobStoreFault; a dying live branch says why (<<"WHY", line, reason>>). *)
-EXTENDS BlobStoreFault, Encrypt, Sequences, Json, IOUtils
+EXTENDS BlobStoreFault, Encrypt, Sequences, Json, IOUtils, FiniteSetsExt
 
 VARIABLES l, dead
 Trace == ndJsonDeserialize(IOEnv.TRACE_FILE)
 Ev == Trace[l]
 tvars == <<fvars, evars, l, dead>>
 
-BlobsDef == {2 * i : i \in 1..345}
+CONSTANT NBlobs      \* size of the universe of the recorded run (345 for the short families)
+BlobsDef == {2 * i : i \in 1..NBlobs}
+(* heap.Pop order: fewest lines first; ties by id (not observable, see above) *)
+TOrders(h) == {SetToSortSeq(h, LAMBDA a, b : a.n < b.n \/ (a.n = b.n /\ a.id < b.id))}
+RECURSIVE SumN(_)
+SumN(S) == IF S = {} THEN 0 ELSE LET x == CHOOSE y \in S : TRUE IN x.n + SumN(S \ {x})
 SeqToSet(s) == {s[i] : i \in 1..Len(s)}
 Pairs(s) == {[p |-> s[i][1], c |-> s[i][2]] : i \in 1..Len(s)}
 
@@ -56,7 +69,17 @@ TReset == /\ IsEv("reset")
           /\ dead' = FALSE
 
 (* ------------------------------------------------------------------ lower-layer calls *)
-ListedAll(M, E, A) == A \subseteq {e.p : e \in {x \in AllEnts(M) : [id |-> x.c, p |-> x.p] \in E}}
+(* every plain of A is listed, with a stored ciphertext of it, in a meta blob of M (sets of ranks merged one meta
+   blob at a time: TLC's UNION is quadratic in the number of elements) *)
+ListedPlains(M, E) == FoldSet(LAMBDA m, acc : acc \cup {e.p : e \in {x \in m.ents : [id |-> x.c, p |-> x.p] \in E}}, {}, M)
+ListedAll(M, E, A) == SubsetEq(A, ListedPlains(M, E))
+TAllEnts(M) == FoldSet(LAMBDA m, acc : acc \cup m.ents, {}, M)
+(* the step removed meta blobs: every entry of theirs that counts is held by a meta blob that stays (looked for in
+   the ones with at least as many lines first), or its plain is listed by another entry that stays *)
+StillListed(M0, M1, E, A) ==
+  \A m \in {x \in M0 : x.id \notin Ids(M1)} : \A e \in m.ents :
+     e.p \in A => \/ [id |-> e.c, p |-> e.p] \in E /\ \E m2 \in {x \in M1 : x.n > m.n} : e \in m2.ents
+                  \/ ListedIn(M1, E, e.p)
 
 TLower ==
   /\ IsEv("lower") /\ Live /\ UNCHANGED fvars
@@ -67,7 +90,10 @@ TLower ==
        [] Ev.act = "metaput" ->
             /\ Ev.id = nextId
             /\ \/ Ev.np <= 1 /\ RecvMeta
-               \/ Ev.np # 1 /\ \E j \in jobs : JobUploadFrom(j, {"get", "upload"})
+               \/ /\ Ev.np # 1
+                  /\ Check("the packed meta blob uploaded does not have the lines of the meta blobs any running job is about to remove",
+                           \E j \in jobs : j.pc \in {"get", "upload"} /\ j.n = Ev.np)
+                  /\ \E j \in jobs : j.n = Ev.np /\ JobUploadFrom(j, {"get", "upload"})
        [] Ev.act = "idxset" -> recv.p = Ev.p /\ recv.c = Ev.c /\ RecvIndex
        [] Ev.act = "metadel" ->
             \E j \in jobs :
@@ -78,7 +104,7 @@ TLower ==
                  /\ UNCHANGED <<enc, heap, index, acked, recv, mode, todo, nextId, tam, fents, ncrash>>
        [] OTHER -> FALSE
   /\ IF Ev.act = "metadel"
-       THEN Check("an acknowledged blob is no longer listed in any stored meta blob (Recoverable)", ListedAll(metas', enc', acked'))
+       THEN Check("an acknowledged blob is no longer listed in any stored meta blob (Recoverable)", StillListed(metas, metas', enc', acked'))
        ELSE TRUE
   /\ Mark
 
@@ -108,6 +134,33 @@ TReceiveCut ==
   /\ UNCHANGED evars
   /\ Mark
 
+(* a run of complete receive cycles of new blobs, nothing interleaved: one RecvBatch step (see the header) *)
+TRecvN ==
+  /\ IsEv("recvn") /\ Live
+  /\ LET k == Len(Ev.ps)
+         S == SeqToSet(Ev.ps) IN
+     /\ Len(Ev.cs) = k /\ Len(Ev.ms) = k /\ Len(Ev.szs) = k
+     /\ \A i \in 1..k : Ev.cs[i] = nextId + 2 * (i - 1) /\ Ev.ms[i] = nextId + 2 * (i - 1) + 1
+     /\ ~caps.readOnly /\ S \subseteq Blobs
+     /\ RecvBatch(Ev.ps, k)
+     /\ Check("a receive acknowledged a wrong size", \A i \in 1..k : Ev.szs[i] = size[Ev.ps[i]])
+     /\ present' = present \cup S /\ limbo' = limbo \ S            \* k x OkReceive
+     /\ reply' = ReceiveReply(Ev.ps[k]) /\ UNCHANGED <<size, caps>>
+     /\ Check("acknowledged but not listed in a stored meta blob / ciphertext missing",
+              \A i \in 1..k : /\ \E m \in metas' : m.id = Ev.ms[i] /\ m.ents = {[p |-> Ev.ps[i], c |-> Ev.cs[i]]}
+                               /\ \E x \in enc' : x.id = Ev.cs[i] /\ x.p = Ev.ps[i])
+  /\ Mark
+
+(* a run of fetches: each reply is the map's *)
+TFetchN ==
+  /\ IsEv("fetchn") /\ Live
+  /\ Len(Ev.bs) >= 1 /\ Len(Ev.out) = Len(Ev.bs)
+  /\ Check("a fetch did not return the acknowledged blob (result class / size differ from the map's)",
+           \A i \in 1..Len(Ev.bs) : LET r == FetchReply(Ev.bs[i]) IN r.res = Ev.out[i][1] /\ r.size = Ev.out[i][2])
+  /\ reply' = FetchReply(Ev.bs[Len(Ev.bs)])
+  /\ UNCHANGED <<present, size, caps, limbo, evars>>
+  /\ Mark
+
 TRead ==
   /\ IsEv("op") /\ Live /\ Ev.op # "receive"
   /\ Act(Ev) /\ Same(reply', Ev)
@@ -115,7 +168,7 @@ TRead ==
   /\ Mark
 
 (* ------------------------------------------------------------------ projections of the real stores *)
-ProjMetas == {[id |-> Ev.metas[i][1], ents |-> Pairs(Ev.metas[i][2])] : i \in 1..Len(Ev.metas)}
+ProjMetas == {[id |-> Ev.metas[i][1], ents |-> Pairs(Ev.metas[i][2]), n |-> Ev.metas[i][3]] : i \in 1..Len(Ev.metas)}
 ProjEnc == {[id |-> Ev.enc[i][1], p |-> Ev.enc[i][2]] : i \in 1..Len(Ev.enc)}
 ProjIndex == Pairs(Ev.index)
 
@@ -151,16 +204,23 @@ Groups == {SeqToSet(Ev.groups[i]) : i \in 1..Len(Ev.groups)}
 MetaById(i) == CHOOSE m \in metas : m.id = i
 
 (* a fresh instance: the start-up scan rebuilds the index from the meta blobs (wipe: the old rows are gone),
-   records every meta blob and starts one compaction per Limit+1 recorded (groups = what the jobs then removed) *)
+   records every meta blob of at most Full lines and starts one compaction per Limit+1 recorded (groups = what
+   the jobs then removed; a gather that closed a group early - more than Full lines - leaves smaller groups) *)
+Recordable == {m \in metas : m.n <= Full}
+GroupMetas(g) == {m \in metas : m.id \in g}
 TRestart ==
   /\ IsEv("restart") /\ Live /\ Ev.res = "ok" /\ ~Ev.frozen
   /\ mode \in {"up", "down"} /\ jobs = {} /\ recv = NoRecv
   /\ Check("conflicting entries in the meta blobs", Functional(AllEnts(metas)))
   /\ index' = Override(IF Ev.wipe THEN {} ELSE index, AllEnts(metas))
-  /\ Check("start-up compaction of unknown meta blobs", \A g \in Groups : g \subseteq Ids(metas) /\ Cardinality(g) = Limit + 1)
+  /\ Check("start-up compaction of unknown meta blobs, of meta blobs of more than Full lines or of a wrong number of them",
+           \A g \in Groups : /\ g \subseteq Ids(Recordable)
+                              /\ \/ Cardinality(g) = Limit + 1
+                                 \/ SumN(GroupMetas(g)) > Full
+                                 \/ Cardinality(g) \in 2..Limit /\ \E h \in Groups : SumN(GroupMetas(h)) > Full)
   /\ Check("start-up compactions overlap", \A g, h \in Groups : g = h \/ g \cap h = {})
-  /\ jobs' = {[plains |-> UNION {PlainsOf(MetaById(i)) : i \in g}, del |-> g, pc |-> "get", second |-> FALSE] : g \in Groups}
-  /\ heap' = {[id |-> m.id, plains |-> PlainsOf(m)] : m \in {x \in metas : x.id \notin UNION Groups}}
+  /\ jobs' = {Job(UNION {PlainsOf(m) : m \in GroupMetas(g)}, SumN(GroupMetas(g)), g) : g \in Groups}
+  /\ heap' = {HeapEl(m.id, PlainsOf(m), m.n) : m \in {x \in Recordable : x.id \notin UNION Groups}}
   /\ Check("more than Limit small meta blobs tracked without compaction", Cardinality(heap') <= Limit)
   /\ mode' = "up" /\ recv' = NoRecv /\ todo' = {}
   /\ UNCHANGED <<enc, metas, acked, nextId, tam, fents, ncrash>>
@@ -199,8 +259,10 @@ TTamper ==
 TGiveUp == ~dead /\ l <= Len(Trace) /\ Ev.ev # "reset" /\ l' = l + 1 /\ dead' = TRUE /\ CanonF /\ CanonE
 TSkip == dead /\ l <= Len(Trace) /\ Ev.ev # "reset" /\ l' = l + 1 /\ UNCHANGED <<fvars, evars, dead>>
 
-TNext == TReset \/ TLower \/ TReceiveOk \/ TReceiveCut \/ TRead \/ TState \/ TCrash \/ TRestart \/ TRestartCut
+TNext == TReset \/ TLower \/ TReceiveOk \/ TReceiveCut \/ TRecvN \/ TFetchN \/ TRead \/ TState \/ TCrash \/ TRestart \/ TRestartCut
          \/ TLeak \/ TTamper \/ TGiveUp \/ TSkip
 TSpec == TInit /\ [][TNext]_tvars
+(* TypeOK of BlobStore (present \subseteq Blobs) said so that TLC needs no search in a set of 10^4 elements per blob *)
+TTypeOK == \A b \in present : b % 2 = 0 /\ b >= 2 /\ b <= 2 * NBlobs
 TraceAccepted == TLCGet("stats").diameter - 1 = Len(Trace)
 =============================================================================
